@@ -153,6 +153,113 @@ fn fmt_cube(c: &Option<Vec<OptBool>>) -> String {
     }
 }
 
+
+// ---------------------------------------------------------------------------
+// ops common to all kinds
+// ---------------------------------------------------------------------------
+
+struct Core<F: Function> {
+    mref: F::ManagerRef,
+    slots: BTreeMap<usize, F>,
+}
+
+impl<F: Function + Clone + Eq + Ord + Hash + Send + 'static> Core<F>
+where
+    for<'id> F::Manager<'id>: Manager + oxidd::HasWorkers,
+    for<'id> <F::Manager<'id> as Manager>::InnerNode: HasLevel,
+{
+    fn get(&self, t: &str) -> Result<&F, String> {
+        self.slots.get(&parse_slot(t)).ok_or_else(|| "skip".to_string())
+    }
+    fn nvars(&self) -> VarNo {
+        self.mref.with_manager_shared(|m| m.num_vars())
+    }
+    fn put(&mut self, t: &str, f: F) -> String {
+        self.slots.insert(parse_slot(t), f);
+        "ok".to_string()
+    }
+
+    fn snapshot(
+        &self,
+        extra: &[(usize, F)],
+        fmt_term: &dyn for<'id> Fn(&<F::Manager<'id> as Manager>::Terminal) -> String,
+    ) -> String {
+        // exclusive access: a background garbage collection (which runs under
+        // the shared lock) can not interleave with the dump
+        self.mref.with_manager_exclusive(|m| {
+            let m = &*m;
+            let mut hs: Vec<(usize, &<F::Manager<'_> as Manager>::Edge)> =
+                self.slots.iter().map(|(k, f)| (*k, f.as_edge(m))).collect();
+            for (k, f) in extra {
+                hs.push((*k, f.as_edge(m)));
+            }
+            snapshot(m, &hs, &|t| fmt_term(t))
+        })
+    }
+
+    /// ops that do not depend on the function family; `None` = not handled here
+    fn exec(&mut self, tok: &[&str]) -> Option<Result<String, String>> {
+        Some(match tok[0] {
+            "VARS" => {
+                let k: u32 = tok[1].parse().unwrap();
+                let r = self.mref.with_manager_exclusive(|m| m.add_vars(k));
+                Ok(format!("range {} {}", r.start, r.end))
+            }
+            "NC" => self.get(tok[1]).map(|f| format!("n {}", f.node_count())),
+            "CLONE" => match self.get(tok[2]) {
+                Ok(f) => {
+                    let f = f.clone();
+                    Ok(self.put(tok[1], f))
+                }
+                Err(e) => Err(e),
+            },
+            "DROP" => {
+                self.slots.remove(&parse_slot(tok[1]));
+                Ok("ok".into())
+            }
+            "DROPT" => {
+                // drop on another thread
+                if let Some(f) = self.slots.remove(&parse_slot(tok[1])) {
+                    std::thread::scope(|s| {
+                        s.spawn(move || drop(f));
+                    });
+                }
+                Ok("ok".into())
+            }
+            "GC" => {
+                let n = self.mref.with_manager_shared(|m| m.gc());
+                Ok(format!("collected {n}"))
+            }
+            "ORDER" | "ORDERSEQ" => {
+                let order: Vec<VarNo> = tok[1..].iter().map(|t| t.parse().unwrap()).collect();
+                let n = self.nvars();
+                if order.iter().any(|&v| v >= n) {
+                    return Some(Err("skip".into()));
+                }
+                self.mref.with_manager_exclusive(|m| {
+                    if tok[0] == "ORDER" {
+                        oxidd_reorder::set_var_order(m, &order)
+                    } else {
+                        oxidd_reorder::set_var_order_seq(m, &order)
+                    }
+                });
+                Ok("ok".into())
+            }
+            "EQ" => match (self.get(tok[1]), self.get(tok[2])) {
+                (Ok(a), Ok(b)) => Ok(format!(
+                    "eq={} cmp={:?} hasheq={} cmprev={:?}",
+                    (a == b) as u8,
+                    a.cmp(b),
+                    (hash_of(a) == hash_of(b)) as u8,
+                    b.cmp(a)
+                )),
+                _ => Err("skip".into()),
+            },
+            _ => return None,
+        })
+    }
+}
+
 // ---------------------------------------------------------------------------
 // Boolean family (BDD, BCDD, ZBDD)
 // ---------------------------------------------------------------------------
@@ -243,8 +350,7 @@ impl BoolExt for oxidd::zbdd::ZBDDFunction {
 }
 
 struct BoolInterp<F: BoolExt> {
-    mref: F::ManagerRef,
-    slots: BTreeMap<usize, F>,
+    core: Core<F>,
     substs: BTreeMap<usize, Subst<F>>,
     sat_u64: SatCountCache<Saturating<u64>, BH>,
     sat_u128: SatCountCache<Saturating<u128>, BH>,
@@ -258,17 +364,17 @@ where
     for<'id> <F::Manager<'id> as Manager>::InnerNode: HasLevel,
 {
     fn get(&self, t: &str) -> Result<&F, String> {
-        self.slots.get(&parse_slot(t)).ok_or_else(|| "skip".to_string())
+        self.core.slots.get(&parse_slot(t)).ok_or_else(|| "skip".to_string())
     }
 
     fn nvars(&self) -> VarNo {
-        self.mref.with_manager_shared(|m| m.num_vars())
+        self.core.mref.with_manager_shared(|m| m.num_vars())
     }
 
     /// cube (conjunction of positive literals) of the variables in `mask`
     fn cube(&self, pos: u64, neg: u64) -> Result<F, String> {
         let n = self.nvars();
-        self.mref.with_manager_shared(|m| {
+        self.core.mref.with_manager_shared(|m| {
             let mut acc = F::t(m);
             for v in (0..n).rev() {
                 if pos >> v & 1 == 1 {
@@ -283,7 +389,7 @@ where
 
     /// route A: disjunction of minterms
     fn from_tt_minterms(&self, nv: u32, tt: u128) -> Result<F, String> {
-        self.mref.with_manager_shared(|m| {
+        self.core.mref.with_manager_shared(|m| {
             let mut acc = F::f(m);
             for a in 0..(1u32 << nv) {
                 if tt >> a & 1 == 0 {
@@ -313,38 +419,30 @@ where
             let x = oom(F::var(m, nv - 1))?;
             oom(x.ite(&hi, &lo))
         }
-        self.mref.with_manager_shared(|m| rec::<F>(m, nv, tt))
+        self.core.mref.with_manager_shared(|m| rec::<F>(m, nv, tt))
     }
 
     fn snapshot(&self) -> String {
-        // exclusive access: a background garbage collection (which runs under
-        // the shared lock) can not interleave with the dump
-        self.mref.with_manager_exclusive(|m| {
-            let m = &*m;
-            let mut hs: Vec<(usize, &<F::Manager<'_> as Manager>::Edge)> =
-                self.slots.iter().map(|(k, f)| (*k, f.as_edge(m))).collect();
-            // the replacement functions held by live substitution objects are handles, too
-            for (sid, s) in &self.substs {
-                use oxidd::Substitution;
-                for (i, (_, r)) in s.pairs().enumerate() {
-                    hs.push((1_000_000 + sid * 100 + i, r.as_edge(m)));
-                }
+        // the replacement functions held by live substitution objects are handles, too
+        let mut extra: Vec<(usize, F)> = Vec::new();
+        for (sid, s) in &self.substs {
+            use oxidd::Substitution;
+            for (i, (_, r)) in s.pairs().enumerate() {
+                extra.push((1_000_000 + sid * 100 + i, r.clone()));
             }
-            snapshot(m, &hs, &|t| F::fmt_term(t))
-        })
+        }
+        self.core.snapshot(&extra, &|t| F::fmt_term(t))
     }
 
     fn exec(&mut self, tok: &[&str]) -> Result<String, String> {
+        if let Some(r) = self.core.exec(tok) {
+            return r;
+        }
         let put = |this: &mut Self, t: &str, f: F| {
-            this.slots.insert(parse_slot(t), f);
+            this.core.slots.insert(parse_slot(t), f);
             "ok".to_string()
         };
         match tok[0] {
-            "VARS" => {
-                let k: u32 = tok[1].parse().unwrap();
-                let r = self.mref.with_manager_exclusive(|m| m.add_vars(k));
-                Ok(format!("range {} {}", r.start, r.end))
-            }
             "TT" | "TTI" => {
                 let nv: u32 = tok[2].parse().unwrap();
                 let tt = u128::from_str_radix(tok[3].trim_start_matches("0x"), 16).unwrap();
@@ -356,11 +454,11 @@ where
                 if v >= self.nvars() {
                     return Err("skip".into());
                 }
-                let f = self.mref.with_manager_shared(|m| if tok[0] == "VAR" { F::var(m, v) } else { F::not_var(m, v) });
+                let f = self.core.mref.with_manager_shared(|m| if tok[0] == "VAR" { F::var(m, v) } else { F::not_var(m, v) });
                 Ok(put(self, tok[1], oom(f)?))
             }
             "CONST" => {
-                let f = self.mref.with_manager_shared(|m| if tok[2] == "1" { F::t(m) } else { F::f(m) });
+                let f = self.core.mref.with_manager_shared(|m| if tok[2] == "1" { F::t(m) } else { F::f(m) });
                 Ok(put(self, tok[1], f))
             }
             "NOT" => {
@@ -398,8 +496,8 @@ where
                         let ct = self.get(tok[3])?.cofactor_true();
                         let ce = self.get(tok[3])?.cofactor_false();
                         let agree = ct.as_ref() == Some(&t) && ce.as_ref() == Some(&e);
-                        self.slots.insert(parse_slot(tok[1]), t);
-                        self.slots.insert(parse_slot(tok[2]), e);
+                        self.core.slots.insert(parse_slot(tok[1]), t);
+                        self.core.slots.insert(parse_slot(tok[2]), e);
                         Ok(format!("some single_agree={}", agree as u8))
                     }
                 }
@@ -462,7 +560,7 @@ where
                 if v >= self.nvars() && !matches!(tok[0], "EMPTY" | "BASE" | "UNION" | "INTSEC" | "DIFF") {
                     return Err("skip".into());
                 }
-                let r = F::setop(&self.mref, tok[0], a, b, v).ok_or("unsupported")?;
+                let r = F::setop(&self.core.mref, tok[0], a, b, v).ok_or("unsupported")?;
                 let r = oom(r)?;
                 Ok(put(self, tok[1], r))
             }
@@ -481,7 +579,6 @@ where
                 }
                 Ok(format!("tt {n} {tt:x}"))
             }
-            "NC" => Ok(format!("n {}", self.get(tok[1])?.node_count())),
             "SATVALID" => {
                 let f = self.get(tok[1])?;
                 Ok(format!("sat={} valid={}", f.satisfiable() as u8, f.valid() as u8))
@@ -489,7 +586,7 @@ where
             "SAT" => {
                 // SAT a vars type
                 let vars: LevelNo = tok[2].parse().unwrap();
-                let f = self.slots.get(&parse_slot(tok[1])).ok_or("skip")?.clone();
+                let f = self.core.slots.get(&parse_slot(tok[1])).ok_or("skip")?.clone();
                 Ok(match tok[3] {
                     "u64" => format!("u64 {}", f.sat_count(vars, &mut self.sat_u64).0),
                     "u128" => format!("u128 {}", f.sat_count(vars, &mut self.sat_u128).0),
@@ -535,7 +632,7 @@ where
                 // PICKUNI a seed count -> histogram of cubes
                 let seed: u64 = tok[2].parse().unwrap();
                 let cnt: u32 = tok[3].parse().unwrap();
-                let f = self.slots.get(&parse_slot(tok[1])).ok_or("skip")?.clone();
+                let f = self.core.slots.get(&parse_slot(tok[1])).ok_or("skip")?.clone();
                 let mut rng = oxidd::util::Rng::new_seed(seed);
                 let mut cache = SatCountCache::<oxidd::util::num::F64, BH>::default();
                 cache.cache_all = true;
@@ -557,7 +654,7 @@ where
                 if self.nvars() < 4 {
                     return Err("skip".into());
                 }
-                let res: Result<(usize, usize, usize, bool), String> = self.mref.with_manager_shared(|m| {
+                let res: Result<(usize, usize, usize, bool), String> = self.core.mref.with_manager_shared(|m| {
                     let x = |v: VarNo| oom(F::var(m, v));
                     let (x0, x1, x2, x3) = (x(0)?, x(1)?, x(2)?, x(3)?);
                     let mut base: Vec<F> = vec![F::f(m), F::t(m), x1.clone(), x2.clone(), x3.clone()];
@@ -591,56 +688,10 @@ where
                 let (before, created, at_end, hit) = res?;
                 Ok(format!("before={before} created={created} inner_at_end={at_end} oom={}", hit as u8))
             }
-            "CLONE" => {
-                let f = self.get(tok[2])?.clone();
-                Ok(put(self, tok[1], f))
-            }
-            "DROP" => {
-                self.slots.remove(&parse_slot(tok[1]));
-                Ok("ok".into())
-            }
-            "DROPT" => {
-                // drop on another thread
-                if let Some(f) = self.slots.remove(&parse_slot(tok[1])) {
-                    std::thread::scope(|s| {
-                        s.spawn(move || drop(f));
-                    });
-                }
-                Ok("ok".into())
-            }
             "DROPALL" => {
-                self.slots.clear();
+                self.core.slots.clear();
                 self.substs.clear();
                 Ok("ok".into())
-            }
-            "GC" => {
-                let n = self.mref.with_manager_shared(|m| m.gc());
-                Ok(format!("collected {n}"))
-            }
-            "ORDER" | "ORDERSEQ" => {
-                let order: Vec<VarNo> = tok[1..].iter().map(|t| t.parse().unwrap()).collect();
-                let n = self.nvars();
-                if order.iter().any(|&v| v >= n) {
-                    return Err("skip".into());
-                }
-                self.mref.with_manager_exclusive(|m| {
-                    if tok[0] == "ORDER" {
-                        oxidd_reorder::set_var_order(m, &order)
-                    } else {
-                        oxidd_reorder::set_var_order_seq(m, &order)
-                    }
-                });
-                Ok("ok".into())
-            }
-            "EQ" => {
-                let (a, b) = (self.get(tok[1])?, self.get(tok[2])?);
-                Ok(format!(
-                    "eq={} cmp={:?} hasheq={} cmprev={:?}",
-                    (a == b) as u8,
-                    a.cmp(b),
-                    (hash_of(a) == hash_of(b)) as u8,
-                    b.cmp(a)
-                ))
             }
             "SNAP" => Ok(self.snapshot()),
             other => Err(format!("unknown-op-{other}")),
@@ -655,8 +706,7 @@ where
 {
     let snap_each = case.param("snap") == Some("each");
     let mut it = BoolInterp::<F> {
-        mref,
-        slots: BTreeMap::new(),
+        core: Core { mref, slots: BTreeMap::new() },
         substs: BTreeMap::new(),
         sat_u64: Default::default(),
         sat_u128: Default::default(),
@@ -676,6 +726,185 @@ where
     }
 }
 
+// ---------------------------------------------------------------------------
+// MTBDD family (pseudo-Boolean functions over I64 / F64 terminals)
+// ---------------------------------------------------------------------------
+
+#[cfg(feature = "mtbdd")]
+mod mt {
+    use super::*;
+    use oxidd::mtbdd::terminal::{F64, I64};
+    use oxidd::mtbdd::MTBDDFunction;
+    use oxidd::PseudoBooleanFunction;
+    use oxidd_core::function::NumberBase;
+
+    pub trait Num: oxidd_core::function::NumberBase + Send + Sync + 'static + std::fmt::Debug + Clone {
+        fn parse(s: &str) -> Self;
+        fn show(&self) -> String;
+    }
+    impl Num for I64 {
+        fn parse(s: &str) -> Self {
+            match s {
+                "nan" => I64::NaN,
+                "+inf" => I64::PlusInf,
+                "-inf" => I64::MinusInf,
+                _ => I64::Num(s.parse().unwrap()),
+            }
+        }
+        fn show(&self) -> String {
+            match self {
+                I64::NaN => "nan".into(),
+                I64::PlusInf => "+inf".into(),
+                I64::MinusInf => "-inf".into(),
+                I64::Num(n) => n.to_string(),
+            }
+        }
+    }
+    impl Num for F64 {
+        fn parse(s: &str) -> Self {
+            F64::from(f64::from_bits(u64::from_str_radix(s, 16).unwrap()))
+        }
+        fn show(&self) -> String {
+            format!("{:016x}", f64::from(*self).to_bits())
+        }
+    }
+
+    macro_rules! mt_run {
+        ($name:ident, $T:ty) => {
+            pub fn $name(case: &Case, out: &mut dyn FnMut(String)) {
+        type Fun<X> = MTBDDFunction<X>;
+            type T = $T;
+        let cap = case.param_u64("cap", 1 << 16) as usize;
+        let tcap = case.param_u64("tcap", 1 << 12) as usize;
+        let cache = case.param_u64("cache", 1 << 12) as usize;
+        let threads = case.param_u64("threads", 1) as u32;
+        let snap_each = case.param("snap") == Some("each");
+        let mref = oxidd::mtbdd::new_manager::<T>(cap, tcap, cache, threads);
+        let mut core: Core<Fun<T>> = Core { mref, slots: BTreeMap::new() };
+        for line in &case.ops {
+            let tok: Vec<&str> = line.split_whitespace().collect();
+            let res: Result<String, String> = (|| {
+                if let Some(r) = core.exec(&tok) {
+                    return r;
+                }
+                match tok[0] {
+                    "CONSTN" => {
+                        let v = T::parse(tok[2]);
+                        let f = oom(core.mref.with_manager_shared(|m| Fun::<T>::constant(m, v)))?;
+                        Ok(core.put(tok[1], f))
+                    }
+                    "VT" => {
+                        // VT dst nv v0 v1 ... : function from its value table, by Shannon
+                        // expansion with ite on the 0-1-valued variable functions
+                        let nv: u32 = tok[2].parse().unwrap();
+                        if nv > core.nvars() || tok.len() != 3 + (1usize << nv) {
+                            return Err("skip".into());
+                        }
+                        let vals: Vec<T> = tok[3..].iter().map(|t| T::parse(t)).collect();
+                        fn rec<T: Num>(
+                            m: &<MTBDDFunction<T> as Function>::Manager<'_>,
+                            nv: u32,
+                            vals: &[T],
+                        ) -> Result<MTBDDFunction<T>, String>
+                        where
+                            MTBDDFunction<T>: PseudoBooleanFunction<Number = T>,
+                        {
+                            if nv == 0 {
+                                return oom(MTBDDFunction::<T>::constant(m, vals[0].clone()));
+                            }
+                            let half = 1usize << (nv - 1);
+                            let lo = rec::<T>(m, nv - 1, &vals[..half])?;
+                            let hi = rec::<T>(m, nv - 1, &vals[half..])?;
+                            let x = oom(<MTBDDFunction<T> as PseudoBooleanFunction>::var(m, nv - 1))?;
+                            oom(x.ite(&hi, &lo))
+                        }
+                        let f = core.mref.with_manager_shared(|m| rec::<T>(m, nv, &vals))?;
+                        Ok(core.put(tok[1], f))
+                    }
+                    "VAR" => {
+                        let v: VarNo = tok[2].parse().unwrap();
+                        if v >= core.nvars() {
+                            return Err("skip".into());
+                        }
+                        let f = oom(core.mref.with_manager_shared(|m| <Fun<T> as PseudoBooleanFunction>::var(m, v)))?;
+                        Ok(core.put(tok[1], f))
+                    }
+                    "ADD" | "SUB" | "MUL" | "DIV" | "MIN" | "MAX" => {
+                        let (a, b) = (core.get(tok[2])?, core.get(tok[3])?);
+                        let r = match tok[0] {
+                            "ADD" => a.add(b),
+                            "SUB" => a.sub(b),
+                            "MUL" => a.mul(b),
+                            "DIV" => a.div(b),
+                            "MIN" => PseudoBooleanFunction::min(a, b),
+                            _ => PseudoBooleanFunction::max(a, b),
+                        };
+                        let r = oom(r)?;
+                        Ok(core.put(tok[1], r))
+                    }
+                    "ITE" => {
+                        let r = oom(core.get(tok[2])?.ite(core.get(tok[3])?, core.get(tok[4])?))?;
+                        Ok(core.put(tok[1], r))
+                    }
+                    "RESTRICT" => {
+                        // RESTRICT dst a posmask negmask : cube = product of literals (x resp. 1 - x)
+                        let (pos, neg): (u64, u64) = (tok[3].parse().unwrap(), tok[4].parse().unwrap());
+                        let n = core.nvars();
+                        let cube: Result<Fun<T>, String> = core.mref.with_manager_shared(|m| {
+                            let one = oom(Fun::<T>::constant(m, T::one()))?;
+                            let mut acc = one.clone();
+                            for v in (0..n).rev() {
+                                let x = oom(<Fun<T> as PseudoBooleanFunction>::var(m, v))?;
+                                if pos >> v & 1 == 1 {
+                                    acc = oom(x.mul(&acc))?;
+                                } else if neg >> v & 1 == 1 {
+                                    let nx = oom(one.sub(&x))?;
+                                    acc = oom(nx.mul(&acc))?;
+                                }
+                            }
+                            Ok(acc)
+                        });
+                        let r = oom(core.get(tok[2])?.restrict(&cube?))?;
+                        Ok(core.put(tok[1], r))
+                    }
+                    "EVAL" => {
+                        let n = core.nvars();
+                        if n > 7 {
+                            return Ok("toolarge".into());
+                        }
+                        let f = core.get(tok[1])?;
+                        let mut s = format!("vt {n}");
+                        for a in 0..(1u32 << n) {
+                            let v = f.eval((0..n).map(|v| (v, a >> v & 1 == 1)));
+                            s.push(' ');
+                            s.push_str(&v.show());
+                        }
+                        Ok(s)
+                    }
+                    "DROPALL" => {
+                        core.slots.clear();
+                        Ok("ok".into())
+                    }
+                    "SNAP" => Ok(core.snapshot(&[], &|t: &T| t.show())),
+                    other => Err(format!("unknown-op-{other}")),
+                }
+            })();
+            let res = match res {
+                Ok(r) => r,
+                Err(e) => format!("err {e}"),
+            };
+            out(format!("{line} -> {res}"));
+            if snap_each && tok[0] != "SNAP" {
+                out(format!("SNAP -> {}", core.snapshot(&[], &|t: &T| t.show())));
+            }
+        }
+    }
+        };
+    }
+    mt_run!(run_i64, I64);
+    mt_run!(run_f64, F64);
+}
+
 fn main() {
     match mode().as_str() {
         "run" => {
@@ -688,6 +917,10 @@ fn main() {
                     "bdd" => run_bool::<oxidd::bdd::BDDFunction>(case, oxidd::bdd::new_manager(cap, cache, threads), out),
                     "bcdd" => run_bool::<oxidd::bcdd::BCDDFunction>(case, oxidd::bcdd::new_manager(cap, cache, threads), out),
                     "zbdd" => run_bool::<oxidd::zbdd::ZBDDFunction>(case, oxidd::zbdd::new_manager(cap, cache, threads), out),
+                    #[cfg(feature = "mtbdd")]
+                    "mtbdd" => mt::run_i64(case, out),
+                    #[cfg(feature = "mtbdd")]
+                    "mtbddf" => mt::run_f64(case, out),
                     k => panic!("unknown kind {k}"),
                 }
             });
